@@ -200,14 +200,35 @@ def diagonal_builders(ctx) -> None:
         K = prog.cls(cq)
         f = K.methods["_create_diagonal"]
         loops = [n for n in _ast.walk(f.node) if isinstance(n, _ast.For)]
+        assigns = _util.single_assignments(f)
+        loopvars = {_util.text(l.target) for l in loops}
+
+        class _Inl(_ast.NodeTransformer):
+            """read-once temporaries (`_h0 = 2**i`) are replaced by their value"""
+            def __init__(self):
+                self.depth = 0
+
+            def visit_Name(self, node):
+                if isinstance(node.ctx, _ast.Load) and node.id in assigns and node.id not in loopvars and node.id.startswith("_") and self.depth < 6:
+                    self.depth += 1
+                    import copy
+                    v = self.visit(copy.deepcopy(assigns[node.id]))
+                    self.depth -= 1
+                    return v
+                return node
+
+        def inl(node):
+            import copy
+            return _Inl().visit(copy.deepcopy(node))
+
         bad = None
         if len(loops) != 2:
             bad = f"{len(loops)} loops (two expected: i, and j > i)"
         else:
             outer, inner = loops[0], loops[1]
             i, j = _util.text(outer.target), _util.text(inner.target)
-            rng_o = _util.text(outer.iter).replace(" ", "")
-            rng_i = _util.text(inner.iter).replace(" ", "")
+            rng_o = _util.text(inl(outer.iter)).replace(" ", "")
+            rng_i = _util.text(inl(inner.iter)).replace(" ", "")
             if rng_o not in ("range(self.nqubits)", "range(0,self.nqubits)"):
                 bad = f"the outer loop runs over {rng_o}"
             elif rng_i != f"range({i}+1,self.nqubits)":
@@ -217,9 +238,9 @@ def diagonal_builders(ctx) -> None:
                 bad = (f"the accumulation is conditional ({type(ctrl[0]).__name__.lower()} at line {ctrl[0].lineno}): a zero "
                        f"coefficient ends or skips part of a row, later pairs lose their interaction")
             augs = [n for n in _ast.walk(outer) if isinstance(n, _ast.AugAssign)]
-            inter = [a for a in augs if isinstance(a.op, _ast.Add) and _util.text(a.value).replace(" ", "") in
+            inter = [a for a in augs if isinstance(a.op, _ast.Add) and _util.text(inl(a.value)).replace(" ", "") in
                      (f"self.interaction_matrix[{i},{j}]", f"self.interaction_matrix[{j},{i}]")]
-            det = [a for a in augs if isinstance(a.op, _ast.Sub) and _util.text(a.value).replace(" ", "") == f"self.deltas[{i}]"]
+            det = [a for a in augs if isinstance(a.op, _ast.Sub) and _util.text(inl(a.value)).replace(" ", "") == f"self.deltas[{i}]"]
             if bad is None and (len(inter) != 1 or not any(inter[0] is n for n in _ast.walk(inner))):
                 bad = "the pair term is not `+= self.interaction_matrix[i, j]` inside the inner loop"
             if bad is None and want_det and (len(det) != 1 or any(det[0] is n for n in _ast.walk(inner))):
@@ -230,7 +251,7 @@ def diagonal_builders(ctx) -> None:
             if bad is None:
                 views = [n for n in _ast.walk(outer) if isinstance(n, _ast.Call) and isinstance(n.func, _ast.Attribute) and n.func.attr == "view"]
                 for v in views:
-                    dims = [_ast_term(a) for a in v.args]
+                    dims = [_ast_term(inl(a)) for a in v.args]
                     k = [m for m, d in enumerate(dims) if d == ("const", 2)]
                     if len(k) != 1:
                         bad = f"view{tuple(_util.text(a) for a in v.args)} has no single qubit axis"
